@@ -1591,12 +1591,53 @@ func (e *lfEngine) assertJustified(x *ssa.TypeAssert) (string, bool) {
 	if !ok || !call.Call.IsInvoke() || call.Call.Method.Name() != "Layer" || len(call.Call.Args) != 1 {
 		return "operand is not the result of gopacket.Packet.Layer", false
 	}
-	ld, ok := call.Call.Args[0].(*ssa.UnOp)
-	if !ok {
-		return "layer type is not a package-level layer type", false
+	// the layer type asked for: a package-level layer type, or a parameter that is one at
+	// every call of this function (a helper shared by several layer types; for a generic
+	// helper each instance has its own calls)
+	var globals []*ssa.Global
+	var collect func(v ssa.Value, depth int) bool
+	collect = func(v ssa.Value, depth int) bool {
+		if depth > 3 {
+			return false
+		}
+		switch a := v.(type) {
+		case *ssa.UnOp:
+			if g, ok := a.X.(*ssa.Global); ok {
+				globals = append(globals, g)
+				return true
+			}
+		case *ssa.Parameter:
+			fn := a.Parent()
+			idx := -1
+			for j, q := range fn.Params {
+				if q == a {
+					idx = j
+				}
+			}
+			n := 0
+			okAll := true
+			for caller := range e.c.All {
+				if caller.Blocks == nil {
+					continue
+				}
+				for _, b := range caller.Blocks {
+					for _, in := range b.Instrs {
+						cc := asCall(in)
+						if cc == nil || cc.StaticCallee() != fn || idx < 0 || idx >= len(cc.Args) {
+							continue
+						}
+						n++
+						if !collect(cc.Args[idx], depth+1) {
+							okAll = false
+						}
+					}
+				}
+			}
+			return n > 0 && okAll
+		}
+		return false
 	}
-	g, ok := ld.X.(*ssa.Global)
-	if !ok {
+	if !collect(call.Call.Args[0], 0) || len(globals) == 0 {
 		return "layer type is not a package-level layer type", false
 	}
 	// the result must have been tested against nil before the assertion
@@ -1611,25 +1652,27 @@ func (e *lfEngine) assertJustified(x *ssa.TypeAssert) (string, bool) {
 	if !tested {
 		return "the layer is not compared with nil before the assertion", false
 	}
-	n := 0
-	for _, fn := range e.c.LibFuncs() {
-		if fn.Name() != "LayerType" || fn.Signature.Recv() == nil {
-			continue
-		}
-		for _, ret := range returnsOf(fn) {
-			for _, v := range possibleValues(ret.Results[0]) {
-				if l2, ok := v.(*ssa.UnOp); ok && l2.X == ssa.Value(g) {
-					rt := fn.Signature.Recv().Type()
-					if !types.Identical(rt, x.AssertedType) {
-						return "another type (" + types.TypeString(rt, shortQual) + ") also reports this layer type", false
+	for _, g := range globals {
+		n := 0
+		for _, fn := range e.c.LibFuncs() {
+			if fn.Name() != "LayerType" || fn.Signature.Recv() == nil {
+				continue
+			}
+			for _, ret := range returnsOf(fn) {
+				for _, v := range possibleValues(ret.Results[0]) {
+					if l2, ok := v.(*ssa.UnOp); ok && l2.X == ssa.Value(g) {
+						rt := fn.Signature.Recv().Type()
+						if !types.Identical(rt, x.AssertedType) {
+							return "another type (" + types.TypeString(rt, shortQual) + ") also reports this layer type", false
+						}
+						n++
 					}
-					n++
 				}
 			}
 		}
-	}
-	if n == 0 {
-		return "no module type reports this layer type", false
+		if n == 0 {
+			return "no module type reports this layer type", false
+		}
 	}
 	return "", true
 }
@@ -2270,6 +2313,57 @@ func (e *lfEngine) execLoop(fr *lfFrame, st *lfState, l *Loop, from *ssa.BasicBl
 		if pi.isInt {
 			for _, ol := range outerLens {
 				addCand(leq(pi.sym, ol))
+			}
+		}
+	}
+	// bounds the loop itself compares against: for a rotated loop (`for i := range n`: the
+	// test sits at the bottom and is made on the next value) "i < n" holds at the head though
+	// no path from the head has tested it; proposed for every integer the loop compares with a
+	// value computed before the loop, kept only if it holds on entry and across every back edge
+	{
+		seenB := map[string]bool{}
+		for b := range l.Blocks {
+			if len(b.Instrs) == 0 {
+				continue
+			}
+			ifi, isIf := b.Instrs[len(b.Instrs)-1].(*ssa.If)
+			if !isIf {
+				continue
+			}
+			bo, isBo := ifi.Cond.(*ssa.BinOp)
+			if !isBo {
+				continue
+			}
+			switch bo.Op {
+			case token.LSS, token.LEQ, token.GTR, token.GEQ:
+			default:
+				continue
+			}
+			for _, side := range []ssa.Value{bo.X, bo.Y} {
+				if !isIntType(side.Type().Underlying()) {
+					continue
+				}
+				if in, isIn := side.(ssa.Instruction); isIn && in.Block() != nil && l.Blocks[in.Block()] {
+					continue // computed inside the loop
+				}
+				if _, isC := side.(*ssa.Const); isC {
+					continue
+				}
+				bv, ok := fr.env[side]
+				if !ok {
+					continue
+				}
+				bi, isInt := bv.(vInt)
+				if !isInt || seenB[bi.E.key()] {
+					continue
+				}
+				seenB[bi.E.key()] = true
+				for _, pi := range phis {
+					if pi.isInt {
+						addCand(lt(pi.sym, bi.E))
+						addCand(leq(pi.sym, bi.E))
+					}
+				}
 			}
 		}
 	}
